@@ -29,7 +29,7 @@ from vf.core.harness import Collector, drive, exc_bucket, jhash, shard_seed
 PROP = "C20"
 MOD = "vf.checks.c20"
 RULE = (
-    "Constant model: Hypothesis cohorts of 1-6 individuals x 1-7 visits x 1-4 features (value modes unit/wide/ties/float64; "
+    "Constant model: Hypothesis cohorts of 1-6 individuals x 1-7 visits (ages positive, all negative or of mixed sign per individual) x 1-4 features (value modes unit/wide/ties/float64; "
     "missing-data modes none/sparse/NaN at the last visit/feature entirely missing/visit entirely missing; table rows sorted, "
     "reversed or permuted; DataFrame/Data/Dataset input; fully missing visits dropped (default) or kept), each evaluated under "
     "all four prediction types, through personalize+estimate (dict of list/array/tuple ages or MultiIndex) and through the "
@@ -38,7 +38,8 @@ RULE = (
     "earlier visit; distinct by (table, prediction type, drop option). "
     "LME: cohorts of 8-24 (quick) / 8-40 (thorough) individuals x 2-6 visits drawn from fe + random intercept (sd 0.2-1) + random "
     "slope (sd 0 or 0.15-0.6, correlated or not) + noise (sd 0.03-0.2), 1/8 of the values missing, x with_random_slope_age x "
-    "force_independent_random_effects, plus a small cohort of new individuals (1-4 visits). One evaluation = one fitted cohort. "
+    "force_independent_random_effects x ingestion with the reader default or with drop_full_nan=False (visits without value reach fit and "
+    "personalisation), plus a small cohort of new individuals (1-4 visits, ingested the same way). One evaluation = one fitted cohort. "
     "Non-trivial = random-slope model fitted on >= 10 individuals; distinct by the whole case."
 )
 ASSUMPTIONS = [
@@ -61,6 +62,9 @@ ASSUMPTIONS = [
     "LME closed form uses the model's own fitted cov_re and noise_std (not the stored inverse) in the inverse-free form Psi Z'(Z Psi Z' + I)^-1 r; "
     "tolerance 2e-6 + (2e-5 + 1e-12 * cond(Psi)) * max|random effect| (the documented formula inverts Psi). A fit refused with LeaspyDataInputError (singular covariance) is the documented refusal and is counted, not judged; "
     "so is a cohort on which statsmodels' optimiser itself raises numpy's LinAlgError from inside MixedLM.fit (seen ~1 in 3000 cohorts; input-perturbation sensitive).",
+    "Ages are arbitrary reals (negative and mixed-sign time scales are generated for the constant model; requested ages may be negative for both models).",
+    "LME with drop_full_nan=False: individuals without ANY observed value are removed from the table by construction (personalisation raises ValueError on them - "
+    "reported edge, counted); individuals with some missing values are judged by the conditional mean computed on their observed visits only.",
     "Identifiers are strings (integer identifiers belong to C14/C16).",
 ]
 REQUIRED_CLASSES = {
@@ -70,6 +74,10 @@ REQUIRED_CLASSES = {
     "const:row-all-nan": 0.02,
     "const:multiindex": 0.02,
     "const:direct-unsorted": 0.05,
+    "constant:negative-ages": 0.05,
+    "constant:negative-ages+shorter-history": 0.03,
+    "lme:nan-at-personalisation": 100,
+    "lme:nan-at-personalisation+random-slope": 50,
     "lme:nontrivial": 100,
     "lme:refit-compared": 300,
     "lme:re-agree-with-statsmodels": 300,
@@ -112,9 +120,9 @@ def _requests(draw, n_ind, *, allow_scalar):
         ages = []
         for _ in range(L):
             if draw(st.integers(0, 4)) == 0:
-                ages.append(draw(st.integers(0, 120)))
+                ages.append(draw(st.integers(-20, 120)))
             else:
-                ages.append(round(float(draw(gen.f32(0, 150))), 3))
+                ages.append(round(float(draw(gen.f32(-50, 150))), 3))
         form = draw(st.sampled_from(["list", "list", "array", "tuple", "scalar"]))
         if form == "scalar":
             if L != 1:
@@ -203,6 +211,14 @@ def constant_case(draw):
         for _ in range(k - 1):
             t = round(t + max(0.01, float(draw(gen.f32(0.01, 5)))), 4)
             ages.append(t)
+        # ages are arbitrary reals (e.g. years relative to onset): all negative / mixed sign, per individual
+        amode = draw(st.sampled_from(["positive", "positive", "negative", "negative", "mixed"]))
+        if amode == "negative":
+            shift = ages[-1] + max(0.01, float(draw(gen.f32(0.01, 20))))
+            ages = [round(a - shift, 4) for a in ages]
+        elif amode == "mixed":
+            shift = ages[draw(st.integers(0, k - 1))] + (0.005 if draw(st.booleans()) else 0.0)
+            ages = [round(a - shift, 4) for a in ages]
         mmode = draw(st.sampled_from(["none", "sparse", "sparse", "last-nan", "feature-missing", "row-nan"]))
         vals = [[_value(draw, vmode) for _ in range(nf)] for _ in ages]
         miss = [[False] * nf for _ in ages]
@@ -305,6 +321,17 @@ def _constant_classes(case):
                 cl.add("const:last-visit-nan")
                 if len(rs) >= 3 and unsorted_:
                     nontrivial = True
+    # negative time scales; "shorter history" = fewer visits held by the Data object than the longest history of the cohort
+    drop = bool(case["drop_full_nan"])
+    held = {id_: [r for r in rs if not (drop and all(v is None for v in r[2:]))] for id_, rs in per.items()}
+    longest = max((len(v) for v in held.values()), default=0)
+    for id_, rs in held.items():
+        if rs and all(r[1] < 0 for r in rs):
+            cl.add("constant:negative-ages")
+            if len(rs) < longest:
+                cl.add("constant:negative-ages+shorter-history")
+        elif rs and any(r[1] < 0 for r in rs):
+            cl.add("constant:mixed-sign-ages")
     if case["vmode"] == "ties":
         cl.add("const:ties")
     if case["api"] == "multiindex":
@@ -475,6 +502,7 @@ def lme_case(draw, max_n=24):
     n = draw(st.integers(8, max_n))
     slope = draw(st.booleans())
     indep = draw(st.booleans())
+    keep_nan = draw(st.sampled_from([True, False, True]))  # ingestion with drop_full_nan=False: NaN values reach personalisation
     fe0 = round(float(draw(gen.f32(-2, 2))), 3)
     fe1 = round(float(draw(gen.f32(-1, 1))), 3)
     sd0 = round(float(draw(gen.f32(0.2, 1.0))), 3)
@@ -523,7 +551,7 @@ def lme_case(draw, max_n=24):
     if draw(st.booleans()):
         new_rows = list(draw(st.permutations(new_rows)))
     req = draw(_requests(n, allow_scalar=True))
-    return dict(engine="lme", slope=slope, indep=indep, truth=dict(fe0=fe0, fe1=fe1, sd0=sd0, sd1=sd1, rho=rho, noise=noise),
+    return dict(engine="lme", keep_nan=keep_nan, slope=slope, indep=indep, truth=dict(fe0=fe0, fe1=fe1, sd0=sd0, sd1=sd1, rho=rho, noise=noise),
                 ids=ids, rows=rows, new_rows=new_rows, **req)
 
 
@@ -622,12 +650,38 @@ def body_lme(col: Collector, case):
     from leaspy.exceptions import LeaspyDataInputError
     from leaspy.models import LMEModel
 
+    from leaspy.io.data import Data
+
     slope, indep = bool(case["slope"]), bool(case["indep"])
     ids = case["ids"]
-    df = _table_df(case["rows"], ["y"])
     per = _lme_reference_data(case["rows"])
     n_ind = len(per)
+    keep_nan = bool(case.get("keep_nan", False))
+    train_rows = case["rows"]
+    if keep_nan:
+        # the cohort is ingested with Data.from_dataframe(df, drop_full_nan=False): visits without value reach fit and personalisation.
+        # Individuals without ANY observed value are excluded by construction (personalisation raises on them: reported edge)
+        train_rows = [r for r in case["rows"] if str(r[0]) in per]
+        if len(train_rows) < len(case["rows"]):
+            col.exclude("lme:individual-without-any-value-under-drop_full_nan=False")
+
+    def ingest(rows):
+        d = _table_df(rows, ["y"])
+        return Data.from_dataframe(d, drop_full_nan=False) if keep_nan else d
+
+    def some_nan(rows):
+        cnt = {}
+        for r in rows:
+            c_ = cnt.setdefault(str(r[0]), [0, 0])
+            c_[0 if r[2] is None else 1] += 1
+        return any(a > 0 and b > 0 for a, b in cnt.values())
     classes = ["lme:random-slope" if slope else "lme:intercept-only"]
+    if keep_nan:
+        classes.append("lme:drop_full_nan=False")
+        if some_nan(train_rows) or some_nan(case["new_rows"]):
+            classes.append("lme:nan-at-personalisation")
+            if slope:
+                classes.append("lme:nan-at-personalisation+random-slope")
     if slope and indep:
         classes.append("lme:forced-independence")
     if case["truth"]["sd1"] == 0:
@@ -653,7 +707,7 @@ def body_lme(col: Collector, case):
         with _quiet(), warnings.catch_warnings():
             warnings.simplefilter("ignore")
             m = LMEModel("lme", with_random_slope_age=slope)
-            m.fit(df.copy(), "lme_fit", force_independent_random_effects=indep)
+            m.fit(ingest(train_rows), "lme_fit", force_independent_random_effects=indep)
     except LeaspyDataInputError as e:
         if "singular" in str(e):
             classes.append("lme:fit-refused-singular")
@@ -674,7 +728,7 @@ def body_lme(col: Collector, case):
     try:
         with _quiet(), warnings.catch_warnings():
             warnings.simplefilter("ignore")
-            ip = m.personalize(df.copy(), "lme_personalize")
+            ip = m.personalize(ingest(train_rows), "lme_personalize")
         got = {str(k): v for k, v in ip.items()}
     except Exception as e:
         col.fail("lme", "unexpected-exception:personalize:" + exc_bucket(e), inp, observed=repr(e), expected="personalize succeeds")
@@ -808,7 +862,7 @@ def body_lme(col: Collector, case):
         try:
             with _quiet(), warnings.catch_warnings():
                 warnings.simplefilter("ignore")
-                ip_new = m.personalize(_table_df(case["new_rows"], ["y"]), "lme_personalize")
+                ip_new = m.personalize(ingest(case["new_rows"]), "lme_personalize")
             got_new = {str(k): _re_of(v, slope) for k, v in ip_new.items()}
         except Exception as e:
             col.fail("lme", "unexpected-exception:personalize-new:" + exc_bucket(e), inp, observed=repr(e), expected="personalize succeeds")
